@@ -87,7 +87,13 @@ def canon(roots, namer=lambda o: None, coarse=True, skip_attrs=()):
             # opaque extension object with no visible state
             return ('obj', t.__module__, t.__qualname__)
         if d is None and not fields:
-            raise CanonError(f'cannot canonicalise {t!r}')
+            # some other built-in value (range, bytearray, ...): by value
+            # where the repr is one, else by type only (merges more: such an
+            # object carries no state the walk could look into)
+            text = repr(o)
+            if ' at 0x' in text:
+                return ('opaque', t.__qualname__)
+            return ('value', t.__qualname__, text)
         fields = [(k, walk(v)) for k, v in sorted(fields, key=lambda kv: kv[0])
                   if k not in skip_attrs]
         return ('obj', t.__module__, t.__qualname__, tuple(fields))
